@@ -116,7 +116,7 @@ def r15_1(ctx):
                 elif accepted:
                     if used != {idx} or len(mc) != 1 or "g" not in group_of(next(iter(mc))):
                         bad = f"accepted write of index {idx}: host records {mc!r}"
-                    elif not (isinstance(ent, Obj) and ent.fields.get("endpoint") not in (0, None) and "g" in group_of(ent.fields.get("multicastId"))):
+                    elif not (isinstance(ent, Obj) and wr[0].fields_then(ent).get("endpoint") not in (0, None) and "g" in group_of(wr[0].fields_then(ent).get("multicastId"))):
                         bad = f"entry written is {ent!r}: it must carry the group and a non-zero endpoint"
                     elif not (p.terminal == "return" and is_ok(ctx, p.value)):
                         bad = f"accepted write but subscribe gives {p.terminal} {p.value!r}"
@@ -186,7 +186,7 @@ def r15_4(ctx):
             else:
                 idx, ent = wr[0].args[0], wr[0].args[1] if len(wr[0].args) > 1 else None
                 accepted = isinstance(wr[0].extra, tuple) and is_ok(ctx, wr[0].extra[0])
-                if idx != gi or not (isinstance(ent, Obj) and ent.fields.get("endpoint") == 0):
+                if idx != gi or not (isinstance(ent, Obj) and wr[0].fields_then(ent).get("endpoint") == 0):
                     bad = f"clears index {idx!r} with entry {ent!r}; must write endpoint 0 at the group's index {gi}"
                 elif Sym("h") not in mc or mc[Sym("h")][1] != 4:
                     bad = "another group's record is disturbed"
@@ -259,6 +259,23 @@ def r15_5(ctx):
         ctx.require(p.terminal == "return" and got_used == want_used and avail == want_free and len(rd) == 3, key,
                     f"{key}: host ends with groups {got_used!r} and free indices {avail!r}; the scan implies groups {want_used!r} and free {sorted(want_free)}",
                     func=f, trace=p.trace(30))
+    # a full-size table (the NCP's table holds up to 255 entries): every index is read and ends up either used or free
+    big = 255
+
+    def get_entry_big(px_, t, a, k, fr):
+        i = a[0] if a else k.get("index")
+        return (es["SUCCESS"], entry_obj(ctx, 1 if i % 2 == 0 else 0, Sym(f"g{i}"), f"e{i}"))
+
+    pxb = PX(repo, models=[("self._ezsp.getConfigurationValue", Outcomes(OK((es["SUCCESS"], big)))), ("self._ezsp.getMulticastTableEntry", get_entry_big)],
+             inline=same_class())
+    for p in pxb.explore(f, lambda: (self_obj(cls, {"_multicast": {}, "_available": set()}), {})):
+        ctx.paths += 1
+        st = p.store["self"]
+        mc, avail = st.get("_multicast"), st.get("_available")
+        used = sorted(v[1] for v in mc.values()) if isinstance(mc, dict) else None
+        ctx.require(p.terminal == "return" and used == list(range(0, big, 2)) and avail == set(range(1, big, 2)), "scan:full-size-table",
+                    f"a table of {big} entries (even indices in use, odd ones free): host ends with {len(used or [])} used and {len(avail or [])} free indices "
+                    f"(used {str(used)[:60]}..); every index of the table must be accounted for", func=f, trace=p.trace(8))
     # a subscribe that runs to completion while a re-scan is suspended at one of its reads (the scan awaits once per table entry;
     # zigpy adds groups whenever the application asks).  The NCP table is [free, g1, free]; the host view before the re-scan agrees
     # with it.  The concurrent subscribe takes an index from whatever free set the object holds at that moment, programs it and
